@@ -519,7 +519,7 @@ pub fn c17(tier: Tier, report: &mut Report) {
 pub fn c18_tokens() -> Vec<&'static str> {
     vec![
         "a", "the", "about", "is", "and", "iPhone", "macOS", "o’clock", "McDonald’s", "USA", "é",
-        "naïve", "x-ray", "3rd", "2", ",", ":", "\"", "(", "-",
+        "naïve", "x-ray", "3rd", "2", ",", ":", "\"", "(", "-", "QUICK", "GUIDE",
     ]
 }
 
@@ -641,6 +641,22 @@ pub fn c18(tier: Tier, report: &mut Report) {
             for v in vars {
                 charfam.push(format!("crossing the {v} ocean"));
                 charfam.push(format!("{v} is near"));
+            }
+        }
+    }
+    // every dictionary word, lower-cased and as listed, inside a title (derived forms of proper
+    // nouns, words whose affix rewrites the end of a capitalised stem)
+    {
+        use harper_core::Dictionary;
+        for w in curated.words_iter() {
+            if !w.iter().all(|c| c.is_alphabetic() || *c == '\'') {
+                continue;
+            }
+            let listed: String = w.iter().collect();
+            let lower = listed.to_lowercase();
+            charfam.push(format!("the {lower} win again"));
+            if lower != listed {
+                charfam.push(format!("the {listed} win again"));
             }
         }
     }
